@@ -18,7 +18,7 @@ LEVEL = "exploration"
 RULE = (
     "Hypothesis generates parameter spaces of 1..4 parameters over two echo-probe models' arguments (scalar and vector-"
     "valued, with colliding short names) and two detector fields, unique value lists given literally or as numpy "
-    "expressions, an enabled/disabled mix, in product / sequential / custom mode (custom: generated table in txt/csv/npy "
+    "expressions, an enabled/disabled mix, in product / sequential / custom mode (custom: generated table in txt/csv/npy, or a txt/csv table of text cells only for a text-valued parameter, "
     "with extra columns before/after and an optional column_range), on the sequential and the dask (synchronous scheduler) "
     "path. The echo probes log the values they received and encode them into the pixel bucket. Oracle: multiset of applied "
     "states == reference space from itertools; for every reference run, selecting the result by its labels yields that run's "
@@ -50,6 +50,8 @@ def body(case, rec):
         rec.cls("vector_param")
     if any(p["key"] == NAME_KEY for p in en):
         rec.cls("text_valued_param")
+    if case.get("custom", {}).get("text"):
+        rec.cls("custom_table_of_text_cells_only")
     if any(p["key"] == NESTED_KEY for p in en):
         rec.cls("nested_key_param")
     if any(not p["enabled"] for p in case["params"]):
